@@ -99,6 +99,59 @@ for step in hist:
 print(json.dumps(out))
 '''
 
+SCENARIO = r'''
+import json, sys
+import stix2
+from stix2 import registry, properties as P
+order, kind = sys.argv[1], sys.argv[2]
+EXT = 'extension-definition--5e1f3b6a-8c2d-4e9f-a0b1-c2d3e4f5a6b7'
+out = []
+def say(key, what): out.append([key, what])
+if kind in ('object', 'observable'):
+    # ONE undecorated class handed to the decorators of both spec versions (the 2.1 one with an extension-definition id): each version's type is its own
+    class Plain(object): pass
+    props = [('x_val', P.IntegerProperty())]
+    def reg(ver):
+        m = stix2.v21 if ver == '2.1' else stix2.v20
+        if kind == 'object': return m.CustomObject('x-vf-both', props, **({'extension_name': EXT} if ver == '2.1' else {}))(Plain)
+        return m.CustomObservable('x-vf-both', props, **({'extension_name': EXT, 'id_contrib_props': ['x_val']} if ver == '2.1' else {}))(Plain)
+    for ver in (('2.0', '2.1') if order == '20-first' else ('2.1', '2.0')):
+        try: reg(ver)
+        except Exception as ex: say('scenario#one class, both versions:registration', f'registering under {ver} ({order}) failed: {type(ex).__name__}: {ex}')
+    cat = 'objects' if kind == 'object' else 'observables'
+    for ver in ('2.0', '2.1'):
+        cls = registry.STIX2_OBJ_MAPS[ver][cat].get('x-vf-both')
+        if cls is None: continue
+        try:
+            o = cls(x_val=1); d = json.loads(o.serialize())
+            if ver == '2.0' and 'extensions' in d: say('scenario#one class, both versions:2.0 instances carry no 2.1 extension', f'{kind} ({order}): the 2.0 instance is written with extensions {d["extensions"]}')
+            if ver == '2.1' and EXT not in d.get('extensions', {}): say('scenario#one class, both versions:2.1 instances carry their extension', f'{kind} ({order}): the 2.1 instance is written without its extension-definition entry: {d}')
+            back = stix2.parse(o.serialize(), version=ver) if kind == 'object' else stix2.parse_observable(o.serialize(), version=ver)
+            if type(back) is not cls or back != o: say('scenario#one class, both versions:round trip', f'{kind} {ver} ({order}): parse(serialize(o)) gives {type(back).__module__}.{type(back).__name__}, equal={back == o}')
+        except Exception as ex: say('scenario#one class, both versions:round trip', f'{kind} {ver} ({order}): {type(ex).__name__}: {str(ex)[:160]}')
+else:
+    # two registered custom marking types: a marking-definition naming one of them never holds an object of the other
+    for ver in ('2.1', '2.0'):
+        m = stix2.v21 if ver == '2.1' else stix2.v20
+        names = (('x-vf-m1', 'a'), ('x-vf-m2', 'b')) if order == '20-first' else (('x-vf-m2', 'b'), ('x-vf-m1', 'a'))
+        cl = {}
+        for n, pn in names: cl[n] = m.CustomMarking(n, [(pn, P.IntegerProperty(required=True))])(type('M', (object,), {}))
+        for dt, obj, what in (('x-vf-m1', lambda: cl['x-vf-m2'](b=1), 'an object of the other registered custom marking'), ('x-vf-m2', lambda: cl['x-vf-m1'](a=1), 'an object of the other registered custom marking'),
+                              ('statement', lambda: cl['x-vf-m1'](a=1), 'a registered custom marking object'), ('x-vf-m1', lambda: m.StatementMarking(statement='s'), 'a statement marking object'),
+                              ('x-vf-m1', lambda: cl['x-vf-m1'](a=1), 'an object of its own class')):
+            try: md = m.MarkingDefinition(definition_type=dt, definition=obj())
+            except Exception as ex:
+                if what == 'an object of its own class': say('scenario#marking definition of a registered type', f'{ver}: definition_type {dt} with {what} refused: {type(ex).__name__}: {str(ex)[:120]}')
+                continue
+            try:
+                back = stix2.parse(md.serialize(), version=ver)
+                if back != md: say('scenario#marking definition holds an object of the named type only', f'{ver}: definition_type {dt} with {what}: accepted, but the serialization parses to something else')
+                elif what != 'an object of its own class' and type(back.definition).__name__ != type(cl.get(dt, m.StatementMarking)).__name__ and set(json.loads(md.serialize())['definition']) != set(json.loads(back.serialize())['definition']):
+                    say('scenario#marking definition holds an object of the named type only', f'{ver}: definition_type {dt} with {what}: accepted as {md.serialize()[:160]}')
+            except Exception as ex: say('scenario#marking definition holds an object of the named type only', f'{ver}: definition_type {dt} with {what}: accepted, written as {json.loads(md.serialize())["definition"]}, which the library then refuses: {type(ex).__name__}')
+print(json.dumps(out))
+'''
+
 VALID = ['x-vf-a', 'x-vf-b']
 INVALID_NAMES = {'2.0': ['X-upper', 'x_underscore', 'ab', 'x--y', 'x-a\n', 'é-type'], '2.1': ['7x-foo', '-lead', 'X-upper', 'x_underscore', 'ab', 'x-a\n']}
 
@@ -206,6 +259,13 @@ def run(chk):
                 if (other, CAT[s['kind']], s['name']) not in registered and not (str(p.get(other)).startswith('ERR') or p.get(other) == 'builtins.dict'):
                     return ('scope#registration is version-scoped', f'{names}: {key} also parses under {other}: {p.get(other)}', {})
         return None
+    def scen_check(case):
+        r = subprocess.run([sys.executable, '-c', SCENARIO, case[0], case[1]], capture_output=True, text=True, env=env, timeout=120)
+        if r.returncode != 0: raise RuntimeError('scenario worker failed: ' + r.stderr[-300:])
+        found = json.loads(r.stdout.strip().splitlines()[-1])
+        if found: return (found[0][0], found[0][1], {'order': case[0], 'kind': case[1], 'all': found[:5]})
+    chk.bounded('cross-version and cross-class scenarios (fresh subprocess each)', [(o, k) for o in ('20-first', '21-first') for k in ('object', 'observable', 'marking')], scen_check, classify=lambda c: c,
+                bound='one undecorated class registered under both spec versions (2.1 with extension_name) as object / observable, two custom markings and marking definitions naming one but holding the other; both registration orders')
     chk.bounded('registration histories (fresh subprocess each)', histories(), check, classify=lambda h: tuple((s['kind'], s['name'], s['ver']) for s in h),
                 bound='histories of length <= 3 over {4 kinds x 2 versions x valid/duplicate/invalid names}; ' + ('all pairs, 64 triples' if chk.tier == 'thorough' else 'every 3rd pair, every 7th triple'))
 
